@@ -5,7 +5,9 @@ import (
 	"fmt"
 	"os"
 	"path/filepath"
+	"runtime"
 	"runtime/debug"
+	"runtime/pprof"
 	"strconv"
 )
 
@@ -22,6 +24,11 @@ func Main(id string, run func(*Run), replay func(*Run, *Violation)) {
 	// executions are short-lived object graphs: trade memory for fewer collections
 	if os.Getenv("GOGC") == "" {
 		debug.SetGCPercent(400)
+	}
+	// soft memory limit: with GC percent 400 a few GB of live objects would otherwise
+	// grow into tens of GB of heap (the sandbox has no memory limit of its own)
+	if os.Getenv("GOMEMLIMIT") == "" {
+		debug.SetMemoryLimit(10 << 30)
 	}
 	r := NewRun(id, *tier, *seed)
 	r.Root = *root
@@ -49,7 +56,24 @@ func Main(id string, run func(*Run), replay func(*Run, *Violation)) {
 		os.Exit(0)
 	}
 	run(r)
+	if f := os.Getenv("VERIF_HEAPPROF"); f != "" {
+		writeHeapProfile(f)
+	}
 	os.Exit(r.Finish())
+}
+
+func writeHeapProfile(f string) {
+	runtime.GC()
+	w, err := os.Create(f)
+	if err != nil {
+		return
+	}
+	defer w.Close()
+	pprof.WriteHeapProfile(w)
+	if g, err := os.Create(f + ".goroutines"); err == nil {
+		pprof.Lookup("goroutine").WriteTo(g, 1)
+		g.Close()
+	}
 }
 
 func envOr(k, d string) string {
